@@ -266,6 +266,19 @@ func checkAny(c *h.Ctx, docText string, doc any, listings [][]wnode, spec anySpe
 		} else {
 			c.Held("exists")
 		}
+		// ... and exists() inside a filter on the item, in either mode: true
+		// exactly if the descent selects something - also when its only match
+		// is the item itself (level 0) or the node visited last is not one
+		if pq := cachedPath(map[bool]string{true: "", false: "strict "}[lax] + `$ ? (exists(@.w` + spec.text + `))`); pq != nil {
+			wrapped := map[string]any{"w": h.Decode(docText, c15UseNum)}
+			oq := h.Call("query", pq, wrapped, h.Opts{})
+			c.Eval(1)
+			if oq.Class != h.OK || (len(oq.Items) == 1) != (len(o.Items) > 0) {
+				c.Violate("exists", h.F("mode", modeName(lax), "form", "in-filter"), fmt.Sprintf("Query(%s) on %s returns %d items but $ ? (exists(@.w%s)) on {\"w\": doc} = %s", ptxt, docText, len(o.Items), spec.text, oq.Summary()), cs)
+			} else {
+				c.Held("exists")
+			}
+		}
 		// ... also for the last node the walk selects, behind a filter and inside exists()
 		if len(o.Items) > 0 && lax {
 			lastItem := o.Items[len(o.Items)-1]
